@@ -154,6 +154,17 @@ class ComponentBump:
         """
         if self.to_rbuild is None:
             return {}
+        # rbuilds included into previous build(s) of the parent project:
+        # 'from_rbuilds' and all their ancestors. (An ancestor of a 'from'
+        # rbuild may be reachable by some other path, not via this 'from'
+        # rbuild - in case there are merges in the component's history)
+        already_included = set()
+        rbuilds_to_check = list(self.from_rbuilds.values())
+        while rbuilds_to_check:
+            rbuild = rbuilds_to_check.pop()
+            if rbuild.iid not in already_included:
+                already_included.add(rbuild.iid)
+                rbuilds_to_check.extend(rbuild.parent_rbuilds.values())
         # DFS rbuilds in the component
         dfs_stack = [[self.to_rbuild]]
         dfs_sp = [0]
@@ -177,7 +188,7 @@ class ComponentBump:
 
             cur_rbuild = dfs_stack[-1][cur_sp]
 
-            if cur_rbuild.iid in self.from_rbuilds:
+            if cur_rbuild.iid in already_included:
                 # do not go deeper
                 dfs_sp[-1] = cur_sp - 1
                 continue
